@@ -1,262 +1,61 @@
 /-
-  C04, the content of the tables — **the standard lookup orders five-card hands exactly as the rules
-  of poker do**.
+  C04, the content of the tables — **every lookup orders the hands it evaluates exactly as the rules of
+  poker do, and accepts exactly the hands the rules admit**.
 
-  `PK.Spec.Ranking.standardKey` is the ranking written from the rules (category from the
-  multiplicities of the ranks, straights with the ace high or low, flushes, ties broken by
-  (multiplicity, rank) descending), independent of lookups.py.  The model's table is what
-  `Lookup.__init__` builds (prime products, `_add_multisets`, `_add_straights`, last write wins,
-  `__reset_ranks`).
+  The rankings in `PK.Spec.Ranking` are written from the rules (category from the multiplicities of the
+  ranks, straights with the ace high or low, flushes, ties broken by (multiplicity, rank) descending;
+  short-deck: flush above full house, A-9-8-7-6 straight; ace-to-five and eight-or-better lows; badugi;
+  Kuhn), independently of lookups.py.  The model's tables are what `Lookup.__init__` builds (prime
+  products, `_add_multisets`, `_add_straights`, last write wins, `__reset_ranks`).
 
-  * `standard_table_ok`   the kernel evaluates the model's table construction and the specification on
-                          all 7 462 signatures (rank multiset × suitedness) a five-card hand of the
-                          52-card deck can have, and checks that every signature has an entry, that its
-                          label is its category, and that table index and specification key order the
-                          signatures identically (`decide +kernel`; no axioms beyond `propext`);
-  * `C04_standard_table`  lifted to cards: for **any** two lists of five distinct cards of the deck, in
-                          any order, both are accepted as hands of every hand type that uses the
-                          standard lookup, the label is the category the rules give, and
-                          `a < b` / `a == b` hold exactly when the rules say so;
-  * `C04_standard_high`, `C04_standard_low`   the same in terms of `score` for `StandardHighHand` and
-                          for the deuce-to-seven low hand (reversed).
+  * `PK.Properties.C04Kernel*`: the kernel evaluates the model's construction of each table and the
+    specification on every signature (rank multiset × suitedness) a hand can have — 7 462 for the
+    five-card hands of the 52-card deck, 2 379 for one to four rainbow cards — and checks that every
+    admissible signature has an entry, that its label is its category, that table index and
+    specification key order the signatures identically, and that no inadmissible signature has an
+    entry (`decide +kernel`; no axioms beyond `propext`).
+  * here, lifted to cards (`PK.Proofs.TableLift`: the enumeration of signatures is complete — sorting,
+    pigeonhole on four suits; the specifications look at the multiset of ranks only): for **any** card
+    lists, in any order,
+
+      `C04_standard_table` (`_high`, `_low`)   StandardHighHand, StandardLowHand, and the five-card
+                                               evaluations inside Omaha / Greek hold'em
+      `C04_short_deck_table`, `_rejects`       ShortDeckHoldemHand
+      `C04_regular_low_table`                  RegularLowHand (razz)
+      `C04_eight_table`, `_rejects`            EightOrBetterLowHand and Omaha eight-or-better
+      `C04_badugi_table`, `_rejects`, `_not_rainbow`   BadugiHand and StandardBadugiHand
+      `C04_kuhn_table`, `_rejects`             KuhnPokerHand
+
+    each saying: both lists are accepted as hands, the label is the category the rules give, and
+    `index a < index b` / `index a = index b` hold exactly when the rules rank `a` before / level with
+    `b`; resp. the constructor raises `ValueError`.
 -/
 import PK.Properties.C04Kernel
-import PK.Properties.C04
-import Mathlib.Data.List.Sort
-import Mathlib.Data.List.Nodup
-import Batteries.Data.List.Perm
+import PK.Properties.C04KernelRegular
+import PK.Properties.C04KernelSmall
+import PK.Proofs.TableLift
 namespace PK
 open PK.Spec PK.TableCheck
 
-/-! ### the specification looks at the multiset of ranks only -/
+theorem tbl_eq (l : LookupId) : Tables.build.tbl l = l.builder.finish := by
+  cases l <;> (unfold Tables.build; simp only [LookupId.all, List.map_cons, List.find?_cons]; rfl)
 
-theorem countEq_perm (v : Nat) {a b : List Nat} (h : a.Perm b) : countEq v a = countEq v b := by
-  induction h with
-  | nil => rfl
-  | cons x _ ih => simp only [countEq, ih]
-  | swap x y l => simp only [countEq]; split <;> split <;> rfl
-  | trans _ _ ih1 ih2 => rw [ih1, ih2]
-
-theorem groupsFrom_perm {a b : List Nat} (h : a.Perm b) : ∀ n, groupsFrom a n = groupsFrom b n
-  | 0 => rfl
-  | n + 1 => by
-    unfold groupsFrom
-    rw [countEq_perm (n + 1) h, groupsFrom_perm h n]
-
-theorem standardKey_perm {a b : List Rank} (h : a.Perm b) (s : Bool) :
-    standardKey a s = standardKey b s := by
-  unfold standardKey
-  rw [groupsFrom_perm (h.map valueHigh) 14]
-
-/-! ### the enumeration of signatures is complete -/
-
-theorem mem_multisets : ∀ (w lo k : Nat) (l : List Nat), l.length = k → l.Pairwise (· ≤ ·) →
-    (∀ x ∈ l, lo ≤ x ∧ x < lo + w) → l ∈ multisets w lo k
-  | 0, lo, k, l, hk, _, hb => by
-    cases l with
-    | nil => subst hk; simp [multisets]
-    | cons x xs => have := hb x List.mem_cons_self; omega
-  | w + 1, lo, k, l, hk, hs, hb => by
-    unfold multisets
-    induction k generalizing l with
-    | zero =>
-      have : l = [] := List.eq_nil_of_length_eq_zero hk
-      subst this; simp [msStep]
-    | succ k ih =>
-      cases l with
-      | nil => cases hk
-      | cons x xs =>
-        unfold msStep
-        rw [List.mem_append]
-        have ⟨hx, hxs⟩ := List.pairwise_cons.1 hs
-        by_cases hxl : x = lo
-        · left
-          subst hxl
-          rw [List.mem_map]
-          refine ⟨xs, ih xs (by simpa using hk) hxs (fun y hy => hb y (List.mem_cons_of_mem _ hy)), rfl⟩
-        · right
-          have hxb := hb x List.mem_cons_self
-          apply mem_multisets w (lo + 1) (k + 1) (x :: xs) hk hs
-          intro y hy
-          rcases List.mem_cons.1 hy with rfl | hy'
-          · omega
-          · have := hx y hy'
-            have := hb y hy
-            omega
-
-theorem allSame_eq : ∀ (l : List Nat), allSame l = true → ∀ x ∈ l, ∀ y ∈ l, x = y
-  | [], _, x, hx, _, _ => by cases hx
-  | [a], _, x, hx, y, hy => by
-    simp only [List.mem_cons, List.mem_nil_iff, or_false] at hx hy; rw [hx, hy]
-  | a :: b :: rest, h, x, hx, y, hy => by
-    unfold allSame at h
-    by_cases hab : a = b
-    · subst hab
-      simp only [if_true] at h
-      have ih := allSame_eq (a :: rest) h
-      have fix : ∀ z, z ∈ a :: a :: rest → z ∈ a :: rest := by
-        intro z hz
-        rcases List.mem_cons.1 hz with rfl | hz'
-        · exact List.mem_cons_self
-        · exact hz'
-      exact ih x (fix x hx) y (fix y hy)
-    · simp [hab] at h
-
-theorem strictlyIncreasing_of : ∀ (l : List Nat), l.Pairwise (· ≤ ·) → l.Nodup → strictlyIncreasing l = true
-  | [], _, _ => rfl
-  | [a], _, _ => rfl
-  | a :: b :: rest, hs, hn => by
-    unfold strictlyIncreasing
-    have ⟨h1, h2⟩ := List.pairwise_cons.1 hs
-    have ⟨n1, n2⟩ := List.nodup_cons.1 hn
-    have hle := h1 b List.mem_cons_self
-    have hne : a ≠ b := fun e => n1 (e ▸ List.mem_cons_self)
-    have : a < b := by omega
-    simp only [this, if_true]
-    exact strictlyIncreasing_of (b :: rest) h2 n2
-
-/-! ### five distinct cards of the deck -/
-
-structure FiveCards (cs : List Card) : Prop where
-  len : cs.length = 5
-  nodup : cs.Nodup
-  known : ∀ c ∈ cs, c.rank < 13 ∧ c.suit < 4
-
-theorem card_ext {c d : Card} (h1 : c.rank = d.rank) (h2 : c.suit = d.suit) : c = d := by
-  cases c; cases d; simp_all
-
-/-- five distinct cards are not all of one rank (there are four suits) -/
-theorem not_five_of_a_kind {cs : List Card} (h : FiveCards cs)
-    (hall : ∀ x ∈ cs.map (·.rank), ∀ y ∈ cs.map (·.rank), x = y) : False := by
-  have hinj : ∀ c ∈ cs, ∀ d ∈ cs, c.suit = d.suit → c = d := by
-    intro c hc d hd hs
-    exact card_ext (hall _ (List.mem_map_of_mem hc) _ (List.mem_map_of_mem hd)) hs
-  have hnd : (cs.map (·.suit)).Nodup := List.Nodup.map_on hinj h.nodup
-  have hsub : cs.map (·.suit) ⊆ List.range 4 := by
-    intro s hs
-    obtain ⟨c, hc, rfl⟩ := List.mem_map.1 hs
-    exact List.mem_range.2 (h.known c hc).2
-  have := (List.subperm_of_subset hnd hsub).length_le
-  simp [h.len] at this
-
-/-- suited distinct cards have distinct ranks -/
-theorem suited_ranks_nodup {cs : List Card} (h : FiveCards cs) (hs : areSuited cs = true) :
-    (cs.map (·.rank)).Nodup := by
-  have hone : ∀ c ∈ cs, ∀ d ∈ cs, c.suit = d.suit := by
-    intro c hc d hd
-    unfold areSuited at hs
-    have hle : (dedup (cs.map (·.suit))).length ≤ 1 := by simpa using hs
-    have hc' : c.suit ∈ dedup (cs.map (·.suit)) := (mem_dedup' _ _).2 (List.mem_map_of_mem hc)
-    have hd' : d.suit ∈ dedup (cs.map (·.suit)) := (mem_dedup' _ _).2 (List.mem_map_of_mem hd)
-    generalize dedup (cs.map (·.suit)) = dl at hle hc' hd'
-    match dl, hle, hc', hd' with
-    | [], _, hc', _ => cases hc'
-    | [x], _, hc', hd' =>
-      simp only [List.mem_cons, List.mem_nil_iff, or_false] at hc' hd'
-      rw [hc', hd']
-    | _ :: _ :: _, hle, _, _ => simp at hle
-  apply List.Nodup.map_on _ h.nodup
-  intro c hc d hd hr
-  exact card_ext hr (hone c hc d hd)
-
-/-- the signature of five distinct cards is in the enumerated family -/
-theorem signature_mem {cs : List Card} (h : FiveCards cs) :
-    ∃ rs : List Rank, rs.Perm (cs.map (·.rank)) ∧ (rs, areSuited cs) ∈ signatures5 := by
-  let rs := (cs.map (·.rank)).insertionSort (· ≤ ·)
-  have hperm : rs.Perm (cs.map (·.rank)) := List.perm_insertionSort _ _
-  have hsorted : rs.Pairwise (· ≤ ·) := List.pairwise_insertionSort _ _
-  have hlen : rs.length = 5 := by rw [hperm.length_eq, List.length_map, h.len]
-  have hb : ∀ x ∈ rs, 0 ≤ x ∧ x < 0 + 13 := by
-    intro x hx
-    obtain ⟨c, hc, rfl⟩ := List.mem_map.1 (hperm.mem_iff.1 hx)
-    have := (h.known c hc).1
-    exact ⟨Nat.zero_le _, by simpa using this⟩
-  have hmem : rs ∈ multisets 13 0 5 := mem_multisets 13 0 5 rs hlen hsorted hb
-  refine ⟨rs, hperm, ?_⟩
-  unfold signatures5
-  rw [List.mem_flatMap]
-  refine ⟨rs, hmem, ?_⟩
-  rw [List.mem_append]
-  cases hsu : areSuited cs with
-  | false =>
-    left
-    have : allSame rs = false := by
-      cases hall : allSame rs with
-      | false => rfl
-      | true =>
-        exfalso
-        apply not_five_of_a_kind h
-        intro x hx y hy
-        exact allSame_eq rs hall x (hperm.mem_iff.2 hx) y (hperm.mem_iff.2 hy)
-    simp [this]
-  | true =>
-    right
-    have : strictlyIncreasing rs = true :=
-      strictlyIncreasing_of rs hsorted (hperm.nodup_iff.2 (suited_ranks_nodup h hsu))
-    simp [this]
-
-theorem Lookup.contains_of_get {t : Lookup} {k : Key} {e : Entry} (h : t.get? k = some e) :
-    t.contains k = true := by
-  unfold Lookup.get? at h
-  unfold Lookup.contains Trie.contains
-  cases hd : t.dict.get? k.code <;> simp_all
-
-theorem tbl_standard : Tables.build.tbl .standard = LookupId.standard.builder.finish := by
-  unfold Tables.build
-  simp only [LookupId.all, List.map_cons, List.find?_cons]
-  rfl
-
-/-- what a lookup passing the check says about a hand of five distinct cards -/
-theorem standard_entry {t : Lookup} (hok : tableOk t standardKey signatures5 = true)
-    {cs : List Card} (h : FiveCards cs) :
-    ∃ k rs, rs.Perm (cs.map (·.rank)) ∧ (rs, areSuited cs) ∈ signatures5 ∧
-      getKey .standard cs = .ok (k, areSuited cs) ∧ hashRanks rs = some k := by
-  obtain ⟨rs, hperm, hmem⟩ := signature_mem h
-  obtain ⟨k1, _, _, _, hk1, _⟩ :=
-    tableOk_sound _ _ _ hok (rs, areSuited cs) hmem (rs, areSuited cs) hmem
-  refine ⟨k1, rs, hperm, hmem, ?_, hk1⟩
-  unfold getKey
-  have : hashRanks (cs.map (·.rank)) = some k1 := by rw [← hashRanks_perm hperm]; exact hk1
-  simp [LookupId.rainbow, this]
-
-/-- the statement for any tables whose standard lookup passes the check (nothing to evaluate here) -/
-theorem standard_table_of_check (T : Tables) (t : Lookup) (hT : T.tbl .standard = t)
-    (hok : tableOk t standardKey signatures5 = true)
-    (ht : HandType) (hl : ht.lookup = .standard) (a b : List Card)
-    (ha : FiveCards a) (hb : FiveCards b) :
-    ∃ x y, mkHand T ht a = .ok x ∧ mkHand T ht b = .ok y ∧
-      x.entry.label = (standardKey (a.map (·.rank)) (areSuited a)).headD 99 ∧
-      (x.entry.index < y.entry.index ↔
-        lexLt (standardKey (a.map (·.rank)) (areSuited a)) (standardKey (b.map (·.rank)) (areSuited b)) = true) ∧
-      (x.entry.index = y.entry.index ↔
-        standardKey (a.map (·.rank)) (areSuited a) = standardKey (b.map (·.rank)) (areSuited b)) := by
-  obtain ⟨ka, ra, hpa, hma, hga, hha⟩ := standard_entry hok ha
-  obtain ⟨kb, rb, hpb, hmb, hgb, hhb⟩ := standard_entry hok hb
-  obtain ⟨k1, k2, e1, e2, hk1, hk2, he1, he2, hlab, hlt, heq⟩ :=
-    tableOk_sound _ _ _ hok (ra, areSuited a) hma (rb, areSuited b) hmb
-  simp only at hk1 hk2 he1 he2 hlab hlt heq
-  rw [hha] at hk1; rw [hhb] at hk2
-  cases hk1; cases hk2
-  rw [standardKey_perm hpa, standardKey_perm hpb] at hlt heq
-  rw [standardKey_perm hpa] at hlab
-  refine ⟨⟨a, e1⟩, ⟨b, e2⟩, ?_, ?_, hlab, hlt, heq⟩
-  · unfold mkHand hasEntry getEntry
-    rw [hl, hga, hT]
-    simp [Lookup.contains_of_get he1, he1]
-  · unfold mkHand hasEntry getEntry
-    rw [hl, hgb, hT]
-    simp [Lookup.contains_of_get he2, he2]
+/-! ### five cards of the 52-card deck: standard ranking -/
 
 /-- **the standard table is the rules of poker**, for every hand type evaluated on it -/
 theorem C04_standard_table (ht : HandType) (hl : ht.lookup = .standard) (a b : List Card)
     (ha : FiveCards a) (hb : FiveCards b) :
     ∃ x y, mkHand Tables.build ht a = .ok x ∧ mkHand Tables.build ht b = .ok y ∧
-      x.entry.label = (standardKey (a.map (·.rank)) (areSuited a)).headD 99 ∧
+      x.entry.label = categoryLabel (standardKey (a.map (·.rank)) (areSuited a)) ∧
       (x.entry.index < y.entry.index ↔
         lexLt (standardKey (a.map (·.rank)) (areSuited a)) (standardKey (b.map (·.rank)) (areSuited b)) = true) ∧
       (x.entry.index = y.entry.index ↔
-        standardKey (a.map (·.rank)) (areSuited a) = standardKey (b.map (·.rank)) (areSuited b)) :=
-  standard_table_of_check Tables.build _ tbl_standard standard_table_ok ht hl a b ha hb
+        standardKey (a.map (·.rank)) (areSuited a) = standardKey (b.map (·.rank)) (areSuited b)) := by
+  obtain ⟨ra, hpa, _, hma⟩ := signature_mem ha
+  obtain ⟨rb, hpb, _, hmb⟩ := signature_mem hb
+  exact accept_of_check Tables.build .standard _ (tbl_eq _) standardKey categoryLabel signatures5
+    standard_table_ok ht hl a b (Or.inl rfl) (Or.inl rfl)
+    ra hpa hma (standardKey_perm hpa _) rb hpb hmb (standardKey_perm hpb _)
 
 /-- `StandardHighHand`: `a < b` exactly when the rules rank `a` below `b`; `a == b` exactly when they tie -/
 theorem C04_standard_high (a b : List Card) (ha : FiveCards a) (hb : FiveCards b) :
@@ -288,5 +87,266 @@ theorem C04_standard_low (a b : List Card) (ha : FiveCards a) (hb : FiveCards b)
 example : FiveCards [⟨0, 0⟩, ⟨12, 0⟩, ⟨11, 0⟩, ⟨10, 0⟩, ⟨9, 0⟩] ∧ FiveCards [⟨0, 0⟩, ⟨0, 1⟩, ⟨0, 2⟩, ⟨0, 3⟩, ⟨12, 0⟩] ∧
     lexLt (standardKey [0, 0, 0, 0, 12] false) (standardKey [0, 12, 11, 10, 9] true) = true := by
   refine ⟨⟨rfl, by decide, by decide⟩, ⟨rfl, by decide, by decide⟩, by decide⟩
+
+/-! ### short-deck hold'em -/
+
+theorem all_ranks {p : Nat → Bool} (cs : List Card) :
+    (cs.map (·.rank)).all p = true ↔ ∀ c ∈ cs, p c.rank = true := by
+  simp [List.all_eq_true]
+
+theorem short_mem {cs : List Card} (h : FiveCards cs) (hs : ∀ c ∈ cs, isShortRank c.rank = true) :
+    ∃ rs : List Rank, rs.Perm (cs.map (·.rank)) ∧ (rs, areSuited cs) ∈ shortDeckSigs := by
+  obtain ⟨rs, hp, _, hm⟩ := signature_mem h
+  refine ⟨rs, hp, ?_⟩
+  unfold shortDeckSigs
+  rw [List.mem_filter]
+  exact ⟨hm, by simp only; rw [all_perm hp]; exact (all_ranks cs).2 hs⟩
+
+theorem short_other_mem {cs : List Card} (h : FiveCards cs) (hs : ∃ c ∈ cs, isShortRank c.rank = false) :
+    ∃ rs : List Rank, rs.Perm (cs.map (·.rank)) ∧ (rs, areSuited cs) ∈ shortDeckOther := by
+  obtain ⟨rs, hp, _, hm⟩ := signature_mem h
+  refine ⟨rs, hp, ?_⟩
+  unfold shortDeckOther
+  rw [List.mem_filter]
+  refine ⟨hm, ?_⟩
+  simp only
+  rw [all_perm hp]
+  cases hall : (cs.map (·.rank)).all isShortRank with
+  | false => rfl
+  | true =>
+    obtain ⟨c, hc, hf⟩ := hs
+    have := (all_ranks cs).1 hall c hc
+    rw [hf] at this; cases this
+
+/-- **ShortDeckHoldemHand**: five distinct cards of the ranks 6 … A are ordered by the short-deck rules -/
+theorem C04_short_deck_table (a b : List Card) (ha : FiveCards a) (hb : FiveCards b)
+    (hsa : ∀ c ∈ a, isShortRank c.rank = true) (hsb : ∀ c ∈ b, isShortRank c.rank = true) :
+    ∃ x y, mkHand Tables.build .shortDeck a = .ok x ∧ mkHand Tables.build .shortDeck b = .ok y ∧
+      x.entry.label = shortDeckLabel (shortDeckKey (a.map (·.rank)) (areSuited a)) ∧
+      (x.entry.index < y.entry.index ↔
+        lexLt (shortDeckKey (a.map (·.rank)) (areSuited a)) (shortDeckKey (b.map (·.rank)) (areSuited b)) = true) ∧
+      (x.entry.index = y.entry.index ↔
+        shortDeckKey (a.map (·.rank)) (areSuited a) = shortDeckKey (b.map (·.rank)) (areSuited b)) := by
+  obtain ⟨ra, hpa, hma⟩ := short_mem ha hsa
+  obtain ⟨rb, hpb, hmb⟩ := short_mem hb hsb
+  exact accept_of_check Tables.build .shortDeck _ (tbl_eq _) shortDeckKey shortDeckLabel shortDeckSigs
+    shortDeck_table_ok .shortDeck rfl a b (Or.inl rfl) (Or.inl rfl)
+    ra hpa hma (shortDeckKey_perm hpa _) rb hpb hmb (shortDeckKey_perm hpb _)
+
+/-- … and five distinct cards with a rank below the six are not a short-deck hand -/
+theorem C04_short_deck_rejects (a : List Card) (ha : FiveCards a)
+    (hs : ∃ c ∈ a, isShortRank c.rank = false) :
+    mkHand Tables.build .shortDeck a = .error .valueError := by
+  obtain ⟨ra, hpa, hma⟩ := short_other_mem ha hs
+  exact reject_of_check Tables.build .shortDeck _ (tbl_eq _) shortDeckOther shortDeck_table_absent
+    .shortDeck rfl a ra hpa hma
+
+/-! ### ace-to-five low (razz) -/
+
+/-- **RegularLowHand**: any five distinct cards are a hand; a smaller index is a better low, exactly as
+    the ace-to-five rules rank them (pairs count, straights and flushes do not) -/
+theorem C04_regular_low_table (a b : List Card) (ha : FiveCards a) (hb : FiveCards b) :
+    ∃ x y, mkHand Tables.build .regularLow a = .ok x ∧ mkHand Tables.build .regularLow b = .ok y ∧
+      x.entry.label = regularLowLabel (regularLowKey (a.map (·.rank)) (areSuited a)) ∧
+      (x.entry.index < y.entry.index ↔
+        lexLt (regularLowKey (a.map (·.rank)) (areSuited a)) (regularLowKey (b.map (·.rank)) (areSuited b)) = true) ∧
+      (x.entry.index = y.entry.index ↔
+        regularLowKey (a.map (·.rank)) (areSuited a) = regularLowKey (b.map (·.rank)) (areSuited b)) := by
+  obtain ⟨ra, hpa, _, hma⟩ := signature_mem ha
+  obtain ⟨rb, hpb, _, hmb⟩ := signature_mem hb
+  exact accept_of_check Tables.build .regular _ (tbl_eq _) regularLowKey regularLowLabel signatures5
+    regular_table_ok .regularLow rfl a b (Or.inl rfl) (Or.inl rfl)
+    ra hpa hma (regularLowKey_perm hpa _) rb hpb hmb (regularLowKey_perm hpb _)
+
+/-! ### eight-or-better low -/
+
+/-- five different ranks, none above the eight (ace low) -/
+def QualifiesEight (cs : List Card) : Prop := (cs.map (·.rank)).Nodup ∧ ∀ c ∈ cs, c.rank ≤ 7
+
+theorem qualifies_iff {cs : List Card} {rs : List Rank} (hp : rs.Perm (cs.map (·.rank)))
+    (hs : rs.Pairwise (· ≤ ·)) : qualifiesEight rs = true ↔ QualifiesEight cs := by
+  unfold qualifiesEight QualifiesEight
+  rw [Bool.and_eq_true, strictlyIncreasing_iff hs, hp.nodup_iff, all_perm hp, all_ranks]
+  simp
+
+theorem C04_eight_table (ht : HandType) (hl : ht.lookup = .eightOrBetter) (a b : List Card)
+    (ha : FiveCards a) (hb : FiveCards b) (hqa : QualifiesEight a) (hqb : QualifiesEight b) :
+    ∃ x y, mkHand Tables.build ht a = .ok x ∧ mkHand Tables.build ht b = .ok y ∧
+      (x.entry.index < y.entry.index ↔
+        lexLt (eightOrBetterKey (a.map (·.rank)) (areSuited a)) (eightOrBetterKey (b.map (·.rank)) (areSuited b)) = true) ∧
+      (x.entry.index = y.entry.index ↔
+        eightOrBetterKey (a.map (·.rank)) (areSuited a) = eightOrBetterKey (b.map (·.rank)) (areSuited b)) := by
+  obtain ⟨ra, hpa, hsa, hma⟩ := signature_mem ha
+  obtain ⟨rb, hpb, hsb, hmb⟩ := signature_mem hb
+  have hma' : (ra, areSuited a) ∈ eightSigs := by
+    unfold eightSigs; rw [List.mem_filter]; exact ⟨hma, (qualifies_iff hpa hsa).2 hqa⟩
+  have hmb' : (rb, areSuited b) ∈ eightSigs := by
+    unfold eightSigs; rw [List.mem_filter]; exact ⟨hmb, (qualifies_iff hpb hsb).2 hqb⟩
+  obtain ⟨x, y, hx, hy, _, h1, h2⟩ :=
+    accept_of_check Tables.build .eightOrBetter _ (tbl_eq _) eightOrBetterKey noLabel eightSigs
+      eight_table_ok ht hl a b (Or.inl rfl) (Or.inl rfl)
+      ra hpa hma' (eightOrBetterKey_perm hpa _) rb hpb hmb' (eightOrBetterKey_perm hpb _)
+  exact ⟨x, y, hx, hy, h1, h2⟩
+
+/-- … and five distinct cards with a pair or a card above the eight have no eight-or-better low -/
+theorem C04_eight_rejects (ht : HandType) (hl : ht.lookup = .eightOrBetter) (a : List Card)
+    (ha : FiveCards a) (hq : ¬ QualifiesEight a) :
+    mkHand Tables.build ht a = .error .valueError := by
+  obtain ⟨ra, hpa, hsa, hma⟩ := signature_mem ha
+  have hma' : (ra, areSuited a) ∈ eightOther := by
+    unfold eightOther; rw [List.mem_filter]
+    refine ⟨hma, ?_⟩
+    simp only
+    cases hq' : qualifiesEight ra with
+    | false => rfl
+    | true => exact absurd ((qualifies_iff hpa hsa).1 hq') hq
+  exact reject_of_check Tables.build .eightOrBetter _ (tbl_eq _) eightOther eight_table_absent
+    ht hl a ra hpa hma'
+
+/-! ### badugi -/
+
+/-- one to four known cards of different suits -/
+structure RainbowCards (cs : List Card) : Prop where
+  pos : 1 ≤ cs.length
+  le4 : cs.length ≤ 4
+  known : ∀ c ∈ cs, c.rank < 13
+  rainbow : areRainbow cs = true
+
+theorem rainbow_sig {cs : List Card} (h : RainbowCards cs) :
+    ∃ rs : List Rank, rs.Perm (cs.map (·.rank)) ∧ rs.Pairwise (· ≤ ·) ∧ (rs, areSuited cs) ∈ rainbowSigs := by
+  let rs := (cs.map (·.rank)).insertionSort (· ≤ ·)
+  have hperm : rs.Perm (cs.map (·.rank)) := List.perm_insertionSort _ _
+  have hsorted : rs.Pairwise (· ≤ ·) := List.pairwise_insertionSort _ _
+  have hlen : rs.length = cs.length := by rw [hperm.length_eq, List.length_map]
+  have hb : ∀ x ∈ rs, 0 ≤ x ∧ x < 0 + 13 := by
+    intro x hx
+    obtain ⟨c, hc, rfl⟩ := List.mem_map.1 (hperm.mem_iff.1 hx)
+    exact ⟨Nat.zero_le _, by simpa using h.known c hc⟩
+  have hmem : rs ∈ multisets 13 0 cs.length := mem_multisets 13 0 _ rs hlen hsorted hb
+  have hsu : areSuited cs = (cs.length == 1) := by
+    have hr := h.rainbow
+    unfold areRainbow at hr
+    unfold areSuited
+    have : (dedup (cs.map (·.suit))).length = cs.length := by simpa using hr
+    rw [this]
+    have := h.pos
+    rcases Nat.lt_or_ge 1 cs.length with h1 | h1
+    · have h2 : ¬ cs.length ≤ 1 := by omega
+      have h3 : ¬ cs.length = 1 := by omega
+      simp [h2, h3]
+    · have h2 : cs.length = 1 := by omega
+      simp [h2]
+  refine ⟨rs, hperm, hsorted, ?_⟩
+  have hin : (rs, areSuited cs) ∈ signaturesRainbow cs.length := by
+    unfold signaturesRainbow
+    rw [List.mem_map]
+    exact ⟨rs, hmem, by rw [hsu]⟩
+  unfold rainbowSigs
+  have h1 := h.pos; have h4 := h.le4
+  simp only [List.mem_append]
+  rcases (by omega : cs.length = 1 ∨ cs.length = 2 ∨ cs.length = 3 ∨ cs.length = 4) with e | e | e | e <;>
+    (rw [e] at hin; simp [hin])
+
+/-- **BadugiHand / StandardBadugiHand**: one to four cards of different suits and ranks are a hand; more
+    cards are better, then lower cards (ace low for badugi, high for the standard rank order) -/
+theorem C04_badugi_table (ht : HandType) (value : Rank → Nat)
+    (hcase : (ht = .badugi ∧ value = valueLow) ∨ (ht = .standardBadugi ∧ value = valueHigh))
+    (a b : List Card) (ha : RainbowCards a) (hb : RainbowCards b)
+    (hda : (a.map (·.rank)).Nodup) (hdb : (b.map (·.rank)).Nodup) :
+    ∃ x y, mkHand Tables.build ht a = .ok x ∧ mkHand Tables.build ht b = .ok y ∧
+      (x.entry.index < y.entry.index ↔
+        lexLt (badugiKey value (a.map (·.rank)) (areSuited a)) (badugiKey value (b.map (·.rank)) (areSuited b)) = true) ∧
+      (x.entry.index = y.entry.index ↔
+        badugiKey value (a.map (·.rank)) (areSuited a) = badugiKey value (b.map (·.rank)) (areSuited b)) := by
+  obtain ⟨ra, hpa, hsa, hma⟩ := rainbow_sig ha
+  obtain ⟨rb, hpb, hsb, hmb⟩ := rainbow_sig hb
+  have hma' : (ra, areSuited a) ∈ badugiSigs := by
+    unfold badugiSigs; rw [List.mem_filter]
+    exact ⟨hma, (strictlyIncreasing_iff hsa).2 (hpa.nodup_iff.2 hda)⟩
+  have hmb' : (rb, areSuited b) ∈ badugiSigs := by
+    unfold badugiSigs; rw [List.mem_filter]
+    exact ⟨hmb, (strictlyIncreasing_iff hsb).2 (hpb.nodup_iff.2 hdb)⟩
+  rcases hcase with ⟨rfl, rfl⟩ | ⟨rfl, rfl⟩
+  · obtain ⟨x, y, hx, hy, _, h1, h2⟩ :=
+      accept_of_check Tables.build .badugi _ (tbl_eq _) (badugiKey valueLow) noLabel badugiSigs
+        badugi_table_ok .badugi rfl a b
+        (Or.inr ha.rainbow) (Or.inr hb.rainbow) ra hpa hma' (badugiKey_perm valueLow hpa _)
+        rb hpb hmb' (badugiKey_perm valueLow hpb _)
+    exact ⟨x, y, hx, hy, h1, h2⟩
+  · obtain ⟨x, y, hx, hy, _, h1, h2⟩ :=
+      accept_of_check Tables.build .standardBadugi _ (tbl_eq _) (badugiKey valueHigh) noLabel badugiSigs
+        standardBadugi_table_ok .standardBadugi rfl a b
+        (Or.inr ha.rainbow) (Or.inr hb.rainbow) ra hpa hma' (badugiKey_perm valueHigh hpa _)
+        rb hpb hmb' (badugiKey_perm valueHigh hpb _)
+    exact ⟨x, y, hx, hy, h1, h2⟩
+
+/-- … cards of different suits with a rank twice are not a badugi hand -/
+theorem C04_badugi_rejects (ht : HandType) (hcase : ht = .badugi ∨ ht = .standardBadugi)
+    (a : List Card) (ha : RainbowCards a) (hda : ¬ (a.map (·.rank)).Nodup) :
+    mkHand Tables.build ht a = .error .valueError := by
+  obtain ⟨ra, hpa, hsa, hma⟩ := rainbow_sig ha
+  have hma' : (ra, areSuited a) ∈ badugiOther := by
+    unfold badugiOther; rw [List.mem_filter]
+    refine ⟨hma, ?_⟩
+    simp only
+    cases hq : strictlyIncreasing ra with
+    | false => rfl
+    | true => exact absurd (hpa.nodup_iff.1 ((strictlyIncreasing_iff hsa).1 hq)) hda
+  rcases hcase with rfl | rfl
+  · exact reject_of_check Tables.build .badugi _ (tbl_eq _) badugiOther badugi_table_absent
+      .badugi rfl a ra hpa hma'
+  · exact reject_of_check Tables.build .standardBadugi _ (tbl_eq _) badugiOther standardBadugi_table_absent
+      .standardBadugi rfl a ra hpa hma'
+
+/-- … and neither are cards two of which share a suit -/
+theorem C04_badugi_not_rainbow (ht : HandType) (hcase : ht = .badugi ∨ ht = .standardBadugi)
+    (a : List Card) (h : areRainbow a = false) :
+    mkHand Tables.build ht a = .error .valueError := by
+  rcases hcase with rfl | rfl <;> exact reject_not_rainbow _ _ a rfl h
+
+/-! ### Kuhn poker -/
+
+theorem kuhn_sig (c : Card) (hk : c.rank < 13) :
+    ([c.rank], areSuited [c]) ∈ signaturesRainbow 1 := by
+  have hs : areSuited [c] = true := by simp [areSuited, dedup]
+  rw [hs]
+  unfold signaturesRainbow
+  rw [List.mem_map]
+  refine ⟨[c.rank], ?_, rfl⟩
+  apply mem_multisets 13 0 1 [c.rank] rfl (List.pairwise_singleton _ _)
+  intro x hx
+  simp only [List.mem_cons, List.mem_nil_iff, or_false] at hx
+  subst hx
+  exact ⟨Nat.zero_le _, by simpa using hk⟩
+
+/-- **KuhnPokerHand**: a jack, queen or king alone is a hand; J < Q < K -/
+theorem C04_kuhn_table (c d : Card) (hc : 10 ≤ c.rank ∧ c.rank < 13) (hd : 10 ≤ d.rank ∧ d.rank < 13) :
+    ∃ x y, mkHand Tables.build .kuhn [c] = .ok x ∧ mkHand Tables.build .kuhn [d] = .ok y ∧
+      (x.entry.index < y.entry.index ↔ c.rank < d.rank) ∧
+      (x.entry.index = y.entry.index ↔ c.rank = d.rank) := by
+  have hmc : ([c.rank], areSuited [c]) ∈ kuhnSigs := by
+    unfold kuhnSigs; rw [List.mem_filter]
+    exact ⟨kuhn_sig c hc.2, by simp [isKuhnRank, hc.1]⟩
+  have hmd : ([d.rank], areSuited [d]) ∈ kuhnSigs := by
+    unfold kuhnSigs; rw [List.mem_filter]
+    exact ⟨kuhn_sig d hd.2, by simp [isKuhnRank, hd.1]⟩
+  obtain ⟨x, y, hx, hy, _, h1, h2⟩ :=
+    accept_of_check Tables.build .kuhn _ (tbl_eq _) kuhnKey noLabel kuhnSigs
+      kuhn_table_ok .kuhn rfl [c] [d]
+      (Or.inl rfl) (Or.inl rfl) [c.rank] (List.Perm.refl _) hmc rfl [d.rank] (List.Perm.refl _) hmd rfl
+  refine ⟨x, y, hx, hy, ?_, ?_⟩
+  · rw [h1]; simp [kuhnKey, valueLow, lexLt]
+  · rw [h2]; simp [kuhnKey, valueLow]
+
+/-- … any other single card is not -/
+theorem C04_kuhn_rejects (c : Card) (hc : c.rank < 10) :
+    mkHand Tables.build .kuhn [c] = .error .valueError := by
+  have hmc : ([c.rank], areSuited [c]) ∈ kuhnOther := by
+    unfold kuhnOther; rw [List.mem_filter]
+    refine ⟨kuhn_sig c (Nat.lt_of_lt_of_le hc (by decide)), ?_⟩
+    have : ¬ 10 ≤ c.rank := Nat.not_le.2 hc
+    simp [isKuhnRank, this]
+  exact reject_of_check Tables.build .kuhn _ (tbl_eq _) kuhnOther kuhn_table_absent
+    .kuhn rfl [c] [c.rank] (List.Perm.refl _) hmc
 
 end PK
